@@ -1017,6 +1017,7 @@ func runC17(c *Ctx) {
 		runC17SessionProbe(c)
 	}
 	runC17Consumer(c)
+	runC17S3(c) // s3: the real loop on real multi-group profiles against XMT/GroupLoop.lean (c17_s3.go)
 	// long free-PRNG histories: liveness and rotation order of every selector
 	c.Cases("long", c.N(60, 600), func(r *Rng, i int) {
 		cs, err := c17Gen(r, false)
